@@ -14,7 +14,8 @@ GEN_TARGETS = ('Tables',)
 DRIVER_MAIN = 'Main/Pearson.lean'
 DRIVER_TARGETS = ['CopVerif.Driver.Pearson']
 ALWAYS_SEARCH = True
-RULE = ('[input forms: every third tie table and 25% of search tables are given to fit as list of rows / Fortran / '
+RULE = ('[smallest legal tables: exactly 2 and 3 rows x 2-4 non-constant columns under every marginal configuration '
+        '(fixed probes in search)] [input forms: every third tie table and 25% of search tables are given to fit as list of rows / Fortran / '
         'strided / read-only ndarray or a frame with Datetime / string / offset / shuffled row index (search also 1-d, '
         '(n,1), Series, single-column frame) and compared with the plain DataFrame / ndarray of the same values; object '
         'states: every search table is also examined restored through from_dict (both routes), save/load and as a '
@@ -968,11 +969,11 @@ def _oracle_core(names, cols, spec, hist=None, info=None):
         with np.errstate(all='ignore'), warnings.catch_warnings():
             warnings.simplefilter('ignore')
             p = np.asarray(model.probability_density(X.iloc[:5]), dtype=float)
-        if p.shape != (5,) or np.isnan(p).any() or (p < 0).any():
+        if p.shape != (min(5, len(X)),) or np.isnan(p).any() or (p < 0).any():
             with np.errstate(all='ignore'):
                 Sn_ = reference_scores(model, X, native=True)
             out.append(('pdf:nan', {'columns': [repr(nm) for nm, bad_ in zip(names, np.isnan(Sn_).any(axis=0)) if bad_],
-                                    'density': p.tolist()}, 'density evaluation works: 5 non-negative numbers'))
+                                    'density': p.tolist()}, 'density evaluation works: one non-negative number per row'))
     except Exception as e:  # noqa
         sub = (':not-psd' + cause) if 'positive semidefinite' in str(e) else ''
         out.append(('pdf:raises' + sub, f'{type(e).__name__}: {str(e)[:160]}',
@@ -1233,6 +1234,29 @@ def storage_cause_probes():
     ]
 
 
+def tiny_probes():
+    """the smallest legal tables: exactly 2 and 3 rows, 2-4 NON-constant columns, every marginal configuration
+    (a column with two distinct values is non-constant: unit diagonal; 2 rows: every correlation is +-1)."""
+    out = []
+    fams = [['class', f] for f in BASE_CLASSES] + [['default'], None]
+    for nrows in (2, 3):
+        for q, spec in enumerate(fams):
+            r = np.random.RandomState(100 * nrows + q)
+            k = 2 + q % 3
+            cols = [r.randn(nrows) * 10.0 ** r.randint(-2, 3) + r.choice([0.0, 5.0, -100.0]) for _ in range(k)]
+            if q % 2:
+                cols[1] = np.array([1.0, 0.0, 1.0][:nrows])                 # indicator column
+            for c in cols:
+                if len(np.unique(c)) < 2:
+                    c[0] += 1.0
+            names = [f'c{i}' for i in range(k)]
+            if spec is None:                                                # per-column dict, mixed forms
+                spec = ['dict', {repr(nm): [['class', 'str', 'inst'][i % 3], BASE_CLASSES[(i + nrows) % len(BASE_CLASSES)]]
+                                 for i, nm in enumerate(names)}]
+            out.append((names, cols, spec, [f'probe:tiny:{nrows}-rows']))
+    return out
+
+
 def form_probes():
     """every input form once (deterministic), on a table with a duplicated column (ridge added) where possible."""
     r = np.random.RandomState(21)
@@ -1329,7 +1353,7 @@ def search(ctx, deep):
     ndefault = 0
     seen_cls = set()
     noted, max_native_dev = False, 0.0
-    probes = fixed_probes() + history_probes() + dtype_probes() + form_probes()
+    probes = fixed_probes() + history_probes() + dtype_probes() + form_probes() + tiny_probes()
     for t in range(len(probes) + ntables):
         hist = None
         if t < len(probes):
